@@ -109,7 +109,7 @@ class Simulator(BaseSimObj):
         """
         if self.scheduler is None:
             raise TypeError("Add a scheduler before attempting to call" " run().")
-        while not self.event_queue.empty():
+        while not self.event_queue.empty() or self._resolve:
             current_events = self.event_queue.get_current_events(self._iteration)
             for e in current_events:
                 self.event_history.append(e)
